@@ -80,6 +80,13 @@ uncompressed serialization. -/
 structure Curve where
   parse : List UInt8 → Option (List UInt8)
 
+/-- The group-theoretic fact the uncompressed pay-to-pubkey form relies on (hypothesis of the script
+round-trip theorems, true of secp256k1): a valid uncompressed key 04‖X‖Y is recovered from X and the
+parity of Y. -/
+def Curve.YRecovery (C : Curve) : Prop :=
+  ∀ k : List UInt8, k.length = 65 → k.take 1 = [4] → (C.parse k).isSome →
+    C.parse ((2 ||| ((k.drop 64).headD 0 &&& 1)) :: (k.drop 1).take 32) = some k
+
 inductive ScriptClass where
   | p2pkh (hash : List UInt8)
   | p2sh (hash : List UInt8)
